@@ -167,6 +167,7 @@ var targets = []target{
 	{Group: "Keys", Mod: "oracle", Pkg: "types", Func: "GetFeedKey", Lean: "OracleGetFeedKey", Opaque: true},
 	{Group: "Keys", Mod: "oracle", Pkg: "types", Func: "GetReqCtxIDKey", Lean: "OracleGetReqCtxIDKey", Opaque: true},
 	{Group: "Keys", Mod: "oracle", Pkg: "types", Func: "GetFeedValuePrefixKey", Lean: "OracleGetFeedValuePrefixKey", Opaque: true},
+	{Group: "Keys", Mod: "oracle", Pkg: "types", Func: "GetFeedValueKey", Lean: "OracleGetFeedValueKey", Opaque: true},
 	{Group: "Keys", Mod: "random", Pkg: "types", Func: "KeyRandom", Lean: "RandomKeyRandom", Opaque: true},
 	{Group: "Keys", Mod: "random", Pkg: "types", Func: "KeyRandomRequestQueue", Lean: "RandomKeyRequestQueue", Opaque: true},
 	{Group: "Keys", Mod: "random", Pkg: "types", Func: "KeyRandomRequestQueueSubspace", Lean: "RandomKeyRequestQueueSubspace", Opaque: true},
@@ -932,6 +933,24 @@ func (t *tr) stmts(list []ast.Stmt, depth int, results []kind, sb *strings.Build
 			bind(x.Lhs[1].(*ast.Ident).Name, "true", kBool)
 			t.stmts(rest, depth, results, sb)
 			return
+		}
+		// key := make([]byte, 8); binary.BigEndian.PutUint64(key, n)  —  the buffer is the big-endian encoding of n
+		if len(x.Lhs) == 1 && len(x.Rhs) == 1 && len(rest) > 0 {
+			if id, ok := x.Lhs[0].(*ast.Ident); ok && types.ExprString(x.Rhs[0]) == "make([]byte, 8)" {
+				if es, ok := rest[0].(*ast.ExprStmt); ok {
+					if c, ok := es.X.(*ast.CallExpr); ok && types.ExprString(c.Fun) == "binary.BigEndian.PutUint64" && len(c.Args) == 2 && types.ExprString(c.Args[0]) == id.Name {
+						var pre []string
+						v, k := t.expr(c.Args[1], &pre)
+						if k != kNat {
+							t.fail(c, "PutUint64 of a value that is not a uint64")
+						}
+						flush(pre)
+						bind(id.Name, "(Uint64ToBigEndian "+v+")", kBytes)
+						t.stmts(rest[1:], depth, results, sb)
+						return
+					}
+				}
+			}
 		}
 		if len(x.Lhs) != len(x.Rhs) {
 			t.fail(x, "tuple assignment")
